@@ -88,6 +88,11 @@ def script_fetchers(S):
     subs = [_mk(S, "s%d" % i, "raw" if i % 2 else "uds") for i in range(6)]
     S.settle()
     for i, c in enumerate(subs):
+        if i >= 2:
+            # clients number their fetches: the SAME fetch id on several connections, next to each other in an element's subscriber
+            # table and behind a subscriber with another id
+            S.request(c, "fetch", {"id": 9, "path": {"startsWith": "e"}})
+            continue
         S.request(c, "fetch", {"id": "f%d" % i, "path": {"startsWith": "e"}})
         S.request(c, "fetch", {"id": i})
     S.settle()
